@@ -29,6 +29,7 @@ import (
 	coinswapkeeper "mods.irisnet.org/modules/coinswap/keeper"
 	farmkeeper "mods.irisnet.org/modules/farm/keeper"
 	htlckeeper "mods.irisnet.org/modules/htlc/keeper"
+	htlctypes "mods.irisnet.org/modules/htlc/types"
 	mtkeeper "mods.irisnet.org/modules/mt/keeper"
 	nftkeeper "mods.irisnet.org/modules/nft/keeper"
 	oraclekeeper "mods.irisnet.org/modules/oracle/keeper"
@@ -234,6 +235,13 @@ func (n *Node) BuildGenesis(spec GenesisSpec) []byte {
 	mg.Params.InflationMin = sdkmath.LegacyZeroDec()
 	mg.Params.InflationRateChange = sdkmath.LegacyZeroDec()
 	gs[minttypes.ModuleName] = cdc.MustMarshalJSON(mg)
+
+	// htlc's default genesis carries time.Now() evaluated at process start (package variable
+	// DefaultPreviousBlockTime): a genesis file is chain data, so the run pins it
+	var hg htlctypes.GenesisState
+	cdc.MustUnmarshalJSON(gs[htlctypes.ModuleName], &hg)
+	hg.PreviousBlockTime = spec.Time
+	gs[htlctypes.ModuleName] = cdc.MustMarshalJSON(&hg)
 
 	for _, m := range spec.Mutators {
 		m(n, gs)
